@@ -276,6 +276,8 @@ class Model:
     def op_rm_hard_link(self, op):
         ns, path = self._resolve_one(op)
         node = self.ns[ns].pop(path)
+        if self.boot is not None and (ns, path) in self.boot['catalog']:
+            self.boot['catalog'].remove((ns, path))
         if node.kind == 'file' and node.cid is not None:
             if not self.names_of(node.cid) and not self.boot_refs(node.cid):
                 self.contents.pop(node.cid, None)
